@@ -63,6 +63,14 @@ var isoFields = []isoField{
 	{"output", isoExec("open('@DIR@/iso-@WHO@-out.txt', write, S), set_output(S)."), "current_output(S), (stream_property(S, alias(A)) -> V = A ; V = none).", "none"},
 	{"input", isoExec("open('@DIR@/iso-in.txt', read, S), set_input(S)."), "current_input(S), (stream_property(S, alias(A)) -> V = A ; V = none).", "none"},
 	{"std_input", isoExec("catch(close(user_input), _, true)."), "(catch(stream_property(_, alias(user_input)), _, fail) -> V = yes ; V = no).", "no"},
+	// the same query TEXT is given to every interpreter; how it reads depends on the interpreter's own operator table / flag
+	// (for an interpreter without the operator the text does not parse: the observation is the error)
+	{"ops_read", isoExec("op(700, xfx, =#=)."), "T = (a =#= b), V = parsed.", "parsed"},
+}
+
+// a second observation of a field, through the reader
+var isoObserveAlso = map[string]isoField{
+	"double_quotes": {"double_quotes (as the reader applies it)", nil, "X = \"abc\", (atom(X) -> V = atom ; V = other).", "atom"},
 }
 
 func isoObserve(p *prolog.Interpreter, f isoField) string {
@@ -171,7 +179,13 @@ func isovmHandle(c map[string]J) map[string]J {
 			}
 			wg.Wait()
 		}
+		fields := append([]isoField{}, isoFields...)
 		for _, f := range isoFields {
+			if g, ok := isoObserveAlso[f.name]; ok {
+				fields = append(fields, g)
+			}
+		}
+		for _, f := range fields {
 			control := isoObserve(vms["C"], f)
 			for _, who := range []string{"A", "B"} {
 				got := isoObserve(vms[who], f)
@@ -180,7 +194,7 @@ func isovmHandle(c map[string]J) map[string]J {
 						"expected": got, "observed": g}
 				}
 				want := control
-				if sees[who].(map[string]J)[f.name] == "mut" {
+				if sees[who].(map[string]J)[strings.SplitN(f.name, " ", 2)[0]] == "mut" {
 					want = f.mutated
 				}
 				if got != want {
